@@ -173,12 +173,19 @@ fn update_file_content_inner(file_name: &str, content: &str) {
         let mut resolver = WasmModuleResolver::new();
         parse_and_bind(&mut resolver, &file_name, content)
     });
-    if let Ok(f) = res {
-        BUNDLER.with(|b| {
-            let mut b = b.borrow_mut();
-            b.files.insert(file_name, f);
-        })
-    }
+    BUNDLER.with(|b| {
+        let mut b = b.borrow_mut();
+        match res {
+            Ok(f) => {
+                b.files.insert(file_name, f);
+            }
+            // the new text does not parse: forget the previous version, or the next rebuild would
+            // silently keep using it
+            Err(_) => {
+                b.files.remove(&file_name);
+            }
+        }
+    })
 }
 
 // ---------------------------------------------------------------------------
